@@ -48,6 +48,7 @@
 #include <errno.h>
 #include <fcntl.h>
 #include <stdint.h>
+#include <sched.h>
 #include <stdio.h>
 #include <stdlib.h>
 #include <string.h>
@@ -492,6 +493,28 @@ pid_t getppid(void) {
     return (pid_t)(fake_pid - 1);
 }
 
+/* Processor count: the affinity mask a launch sees keeps only its first 1 + key[4] % 8 processors
+   (never more than it really has), so std::thread::available_parallelism() and anything sized
+   from it is a function of the plan. */
+int sched_getaffinity(pid_t pid, size_t size, cpu_set_t *mask) {
+    init_once();
+    long r = syscall(SYS_sched_getaffinity, pid, size, mask);
+    if (r < 0) return -1;
+    if ((size_t)r < size) memset((char *)mask + r, 0, size - (size_t)r);
+    if (fake_pid && key_len > 4) {
+        int want = 1 + key_bytes[4] % 8, seen = 0;
+        for (size_t i = 0; i < size * 8; i++) {
+            unsigned char *byte = (unsigned char *)mask + i / 8;
+            unsigned char bit = (unsigned char)(1u << (i % 8));
+            if (*byte & bit) {
+                if (seen >= want) *byte &= (unsigned char)~bit;
+                else seen++;
+            }
+        }
+    }
+    return 0;
+}
+
 pid_t gettid(void) {
     init_once();
     if (!fake_pid) return (pid_t)syscall(SYS_gettid);
@@ -554,6 +577,17 @@ static int simulated_special_file(const char *path) {
         log_mark("T\n");
         return memfd_with(buf, (size_t)n);
     }
+    if (!strcmp(path, "/proc/meminfo")) {
+        /* system-wide memory: follows the plan's memory figure (reference 8 MiB resident ->
+           "plenty available"; a plan reporting a huge resident set reports little available) */
+        unsigned long long total = 64ULL << 20; /* KiB */
+        unsigned long long avail = fake_rss_kib > 0 && (unsigned long long)fake_rss_kib < total ? total - (unsigned long long)fake_rss_kib * 16ULL % total : 1024ULL;
+        if (fake_rss_kib >= 2000000) avail = 2048ULL;
+        char buf[512];
+        int n = snprintf(buf, sizeof buf, "MemTotal:       %llu kB\nMemFree:        %llu kB\nMemAvailable:   %llu kB\nBuffers:               0 kB\nCached:                0 kB\nSwapTotal:             0 kB\nSwapFree:              0 kB\n", total, avail, avail);
+        log_mark("P\n");
+        return memfd_with(buf, (size_t)n);
+    }
     if (!strcmp(path, "/proc/loadavg")) {
         char buf[96];
         int n = snprintf(buf, sizeof buf, "%u.%02u 0.50 0.25 1/%ld %ld\n", (unsigned)(key_bytes[0] % 16), (unsigned)(key_bytes[1] % 100), 100 + (long)(key_bytes[2]), fake_pid ? fake_pid : 4242L);
@@ -568,7 +602,7 @@ static int patched_proc_file(const char *path) {
     if (fake_rss_kib <= 0) return -1;
     int is_status = !strcmp(path, "/proc/self/status");
     int is_statm = !strcmp(path, "/proc/self/statm");
-    int is_stat = !strcmp(path, "/proc/self/stat");
+    int is_stat = !strcmp(path, "/proc/self/stat") || !strcmp(path, "/proc/thread-self/stat");
     if (!is_status && !is_statm && !is_stat) return -1;
     int real = (int)syscall(SYS_openat, AT_FDCWD, path, O_RDONLY | O_CLOEXEC, 0);
     if (real < 0) return -1;
@@ -587,7 +621,8 @@ static int patched_proc_file(const char *path) {
         o = (size_t)snprintf(out, sizeof out, "%ld (gram)", fake_pid ? fake_pid : 4242L);
         char *tok = strtok(close_paren + 1, " \n");
         int field = 3;
-        unsigned long long ticks = clock_owned ? clock_step / 1000000ULL : 1ULL;
+        static unsigned long long stat_reads = 0;
+        unsigned long long ticks = (clock_owned ? clock_step / 1000000ULL : 1ULL) * (++stat_reads);
         while (tok && o + 64 < sizeof out) {
             if (field == 4) o += (size_t)snprintf(out + o, sizeof out - o, " %ld", (fake_pid ? fake_pid : 4242L) - 1);
             else if (field == 14 || field == 15) o += (size_t)snprintf(out + o, sizeof out - o, " %llu", ticks);
@@ -632,7 +667,7 @@ static int patched_proc_file(const char *path) {
 int open64(const char *path, int flags, ...) {
     mode_t mode = 0;
     if (flags & (O_CREAT | O_TMPFILE)) { va_list ap; va_start(ap, flags); mode = va_arg(ap, mode_t); va_end(ap); }
-    if (path && !strncmp(path, "/proc/self/stat", 15)) {
+    if (path && (!strncmp(path, "/proc/self/stat", 15) || !strcmp(path, "/proc/thread-self/stat"))) {
         int fd = patched_proc_file(path);
         if (fd >= 0) return fd;
     }
@@ -646,7 +681,7 @@ int open64(const char *path, int flags, ...) {
 int open(const char *path, int flags, ...) {
     mode_t mode = 0;
     if (flags & (O_CREAT | O_TMPFILE)) { va_list ap; va_start(ap, flags); mode = va_arg(ap, mode_t); va_end(ap); }
-    if (path && !strncmp(path, "/proc/self/stat", 15)) {
+    if (path && (!strncmp(path, "/proc/self/stat", 15) || !strcmp(path, "/proc/thread-self/stat"))) {
         int fd = patched_proc_file(path);
         if (fd >= 0) return fd;
     }
@@ -656,3 +691,7 @@ int open(const char *path, int flags, ...) {
     }
     return (int)syscall(SYS_openat, AT_FDCWD, path, flags, mode);
 }
+
+/* Cycle counter (RDTSC): not owned. prctl(PR_SET_TSC, PR_TSC_SIGSEGV) is accepted in this VM but
+   the instruction does not trap afterwards (tried; the hypervisor does not honour CR4.TSD), so
+   there is nothing to emulate from. See DESIGN.md, section 9. */
